@@ -143,6 +143,23 @@ for line in sys.stdin:
     t = line.split()
     if not t:
         continue
+    if t[0] == "B":
+        # n short-lived processes, all on ONE cpu, each making one connect: prints their pids
+        n, spec = int(t[1]), t[2]
+        try:
+            os.sched_setaffinity(0, {sorted(os.sched_getaffinity(0))[0]})
+        except OSError:
+            pass
+        pids = []
+        for _ in range(n):
+            pid = os.fork()
+            if pid == 0:
+                one(spec)
+                os._exit(0)
+            os.waitpid(pid, 0)
+            pids.append(pid)
+        sys.stdout.write(" ".join(map(str, pids)) + "\n"); sys.stdout.flush()
+        continue
     uid, gid, specs = int(t[0]), int(t[1]), t[2:]
     r, w = os.pipe()
     pid = os.fork()
@@ -323,6 +340,21 @@ def kernel_stage(chk, binp, sd, rng, protected, local_ip):
             got = ctl("dump").split(" | ")[3]
             mine = " ".join(e for e in got.split(" ")[1:] if e.startswith("[%d,%d->" % (pid, pid)))
             model.append(("CMPL", mine, pt, "hand-over entry of pid %d after %s" % (pid, [(dq(i), p, pr) for i, p, pr, _ in specs]), uid, gid, specs))
+        # a burst of 60 processes on one CPU, each with one connect to a protected address: the hand-over map (200 entries) holds
+        # an entry for every one of them (nothing consumes them in this kernel) - capacity is per map, not per CPU
+        name, ip, port = protected[0]
+        helper.stdin.write("B 60 %s:%d:tcp\n" % (dq(ip), port)); helper.stdin.flush()
+        bpids = [int(x) for x in helper.stdout.readline().split()]
+        got = ctl("dump").split(" | ")[3]
+        have = set(int(e.split(",")[0][1:]) for e in got.split(" ")[1:] if e.startswith("["))
+        missing = [p_ for p_ in bpids if p_ not in have]
+        chk.case(nontrivial_key=("kernel-burst-one-cpu", len(bpids), len(missing)))
+        chk.count("kernel_burst_connects", len(bpids))
+        if len(bpids) == 60 and missing:
+            chk.violation("audit record does not state the true caller / original destination",
+                          {"kernel": "running kernel; 60 processes on one CPU, one protected connect each, nothing consumed in between",
+                           "pending_entries_expected": 60, "pending_entries_missing": len(missing)},
+                          expected="an entry for each of the 60 (the map holds 200)", observed="%d missing" % len(missing))
         outs = iter(vlib.run_driver([m for m in model if isinstance(m, str)]))
         last = None
         for m in model:
@@ -436,9 +468,20 @@ def run(chk):
             gid = rng.pick([0, 0, 1000, 100, 27, 65534]) if rng.chance(3, 4) else uid
             ip, port, proto, prot = rng.pick(dests)
             lport += 1
+            reuse_of = None
+            if threads and rng.chance(1, 8):
+                # the local source port of an earlier attempt of this schedule is used again (its connection is over, its record was
+                # never removed by the agent - a refused or abandoned connect): the record under that port is the LATER caller's
+                j = rng.below(len(threads))
+                if threads[j]["proto"] == TCP and not any(t.get("reuse_of") == j for t in threads):
+                    reuse_of = j
             threads.append({"pt": (pid << 32) | tid, "ug": (gid << 32) | uid, "pid": pid, "uid": uid, "gid": gid, "ip": ip, "port": port,
                             "proto": proto, "protected": prot and policy_on[[p[1:] for p in protected].index((ip, port))] if prot else False,
-                            "lport": lport, "stage": 0})
+                            "lport": lport if reuse_of is None else threads[reuse_of]["lport"], "stage": 0})
+            if reuse_of is not None:
+                threads[-1]["reuse_of"] = reuse_of
+                threads[-1]["after2"] = reuse_of
+                chk.count("source_port_used_again")
         # interleave the two hook points of every attempt arbitrarily; a few attempts fail between the hooks
         pending = list(range(nthreads))
         while pending:
@@ -446,6 +489,8 @@ def run(chk):
             t = threads[i]
             if t.get("after") is not None and t["after"] in pending:
                 continue                        # its thread is still busy with the earlier attempt
+            if t.get("after2") is not None and t["after2"] in pending:
+                continue                        # the earlier connection on this source port is not over yet
             if t["stage"] == 0:
                 sim_lines.append(f"c4 {t['pt']} {t['ug']} {t['ip']} {bswap16(t['port'])} {t['proto']}")
                 meta.append(("c4", sc, i))
@@ -539,6 +584,11 @@ def run(chk):
                 if inflight >= 200:
                     continue      # beyond the map capacity LRU eviction may drop records: not part of the claim
                 completed = not t.get("aborted")
+                superseded = any(u.get("reuse_of") == i for u in threads)       # a later attempt used this source port again
+                if superseded:
+                    continue      # what is under that port now is judged with the later attempt
+                if t.get("reuse_of") is not None and not (should and completed):
+                    continue      # nothing new was to be written: the earlier connection's record may still be there
                 if should and completed:
                     chk.count("records_expected")
                     a, b, c, d = [(t["ip"] >> s) & 0xff for s in (0, 8, 16, 24)]
